@@ -62,3 +62,14 @@ Proof.
     assert (2 ^ 63 <= 2 ^ (bitlen (Z.abs (val a)) - 1)) by (apply Z.pow_le_mono_r; lia).
     change (2 ^ 63) with H63 in *. lia.
 Qed.
+
+(* bintFrPlacev (how generated code builds its big literals): sign and places, high-order zero places allowed *)
+Theorem frplacev_exact : forall neg data, dok data ->
+  val (bintFrPlacev neg data) = (if neg then - lval data else lval data) /\ norm (bintFrPlacev neg data).
+Proof.
+  intros neg data Hd. unfold bintFrPlacev.
+  assert (Rk : res_ok (strip data)).
+  { split; [apply strip_dok; exact Hd|]. intros H3.
+    destruct (strip_last data) as [E|E]; [rewrite E in H3; cbn in H3; lia | exact E]. }
+  destruct (xintImmedIfCan_ok neg _ Rk) as (V & N). rewrite V. cbn [val]. rewrite strip_lval. split; [reflexivity | exact N].
+Qed.
